@@ -74,6 +74,10 @@ CHECKS = {
          "explicit-state exhaustive search over create/start/pause/edit (creator and stranger)/respond (signed, zero, large, non-numeric, error)/drain/block/jump sequences on the real oracle+service keepers, exact big-rational reference of the per-feed value list compared through the queries in every state",
          "Every sequence up to the depth bound over six fixtures (max/min/avg value sets with 3 providers, history shrink/grow, lifecycle with two feeds and funds draining, creation): each completed batch meeting its threshold appends exactly the configured aggregate (8 decimals) stamped with the block time, below threshold nothing; the list stays newest-first and within latest-history across edits; the feed state index always equals the service context state; only the creator starts, pauses or edits.",
          "DESIGN.md §3 C17"),
+ "C10": ("model_checking",
+         "exhaustive enumeration of LossLessSwap over all scale pairs 0..18 x an input lattice x 8 ratios against exact rational arithmetic, plus explicit-state exhaustive search over ERC20 conversions (both directions, swap-to-native hook) with a store-backed fault-injecting EVM (<= 1 fault per conversion) and fee-token swaps at three ratios on the real token keeper",
+         "Kernel: 0 <= burned <= offered, minted*10^s_in <= burned*ratio*10^s_out, equality and unconvertible dust at ratio 1. Search: every conversion moves exactly the amount on both ledgers and keeps native+ERC20 supply constant; any failure (insufficient balance, blocked receiver, injected EVM call error / VM failure / wrong credited amount / balanceOf error) leaves both ledgers unchanged; fee swaps never burn more than offered, never mint more than worth, supplies move by exactly burned/minted, module account empty.",
+         "DESIGN.md §3 C10"),
 }
 NOT_YET = "check not built yet in this phase of the work (see DESIGN.md §6 change log); not claimed"
 
